@@ -18,6 +18,27 @@ func TestVerif(t *testing.T) {
 func unitsA() []verifsim.Unit {
 	return []verifsim.Unit{
 		{
+			Name: "A.cont", Props: []string{"C17"}, Run: runACont,
+			Rule:    "one case = seeded configuration + history of valid frames with arbitrary motion, camera resets, closed windows, refused starts and non-overlapping test-recording requests, continuous recorder on; executed four times (as is / without requests / without continuous recorder / window always open) and compared; non-trivial = at least two continuous files; distinct = (max frames, number of files per sink, request positions)",
+			Measure: "c17 = (max-secs, fps, continuous files, test recordings, window configured)",
+			Real:    realA, Stub: stubA,
+			Assumptions: []string{"test-recording requests are at least 24 frames apart (C17's quantifier: non-overlapping)", "throttling is exercised in unit AB (composition with the real ThrottledRecorder)"},
+		},
+		{
+			Name: "A.bad", Props: []string{"C13"}, Run: runABad,
+			Rule:    "one case = seeded configuration + history with bad frames (zero pixel at interior corners, last interior row/column, deep interior; plus zero border pixels that must be accepted) before/on/after triggers and during recordings; raw Lepton frames built byte-wise with pseudo-random telemetry words; up to three bad frames per case are additionally deleted and the run repeated (differential); non-trivial = at least one bad frame; distinct = (edge, resolution, number of bad frames, recordings, event string)",
+			Measure: "c13.badpos = (edge, resolution)",
+			Real:    realA, Stub: stubA,
+			Assumptions: []string{"Lepton format here; the Boson converter is exercised in world C"},
+		},
+		{
+			Name: "A.fault", Props: []string{"C12"}, Run: runAFault, MinimiseRuns: 120,
+			Rule:    "one case = seeded event sequence over {motion frame, still frame, bad frame, reset, test-recording request (overlapping allowed)} of 8-60 events with the continuous recorder on or off, followed by a fault-free liveness suffix (quiet, burst, quiet); executed fault-free, then once per single placement of an error on every sink call made during the sequence (CheckCanRecord/Start/Write/Stop x three sinks: enumerated completely), then six seeded multi-fault plans; non-trivial = at least one placement; distinct = event string + configuration",
+			Measure: "c12.ops = number of start/write/stop calls per sink in the fault-free run",
+			Real:    realA, Stub: stubA,
+			Assumptions: []string{"faults are injected at the recorder.Recorder seam (errors returned by sink calls), not inside the file system"},
+		},
+		{
 			Name: "A.rec", Props: []string{"C01", "C02", "C03", "C04"}, Run: runARec,
 			Rule:    "one case = one seeded configuration (fps, preview, min/max, trigger frames, resolution, edge, detector mode, window) + one seeded event history (motion segments, bad frames, clears, refused starts by window/disk/create, wall-clock steps and jumps) executed on the real MotionProcessor; non-trivial = at least two motion recordings were made; distinct = distinct (configuration, start ordinal + length of every recording) signatures",
 			Measure: "c01.tile = (cap, distance from previous stop) of re-triggers within reach; c02.phase = (cap, ring phase, preview length); c03.end = (limit kind, length, last motion, min, max); c04.gate = (trigger frames, window, boundary instant, disk, create) at candidate start frames",
